@@ -82,6 +82,8 @@ namespace fastscapelib
             wait();
             set_tasks(m_pause_jobs);
             {
+                FASTSCAPELIB_VERIF_UNLOCK_GUARD(verif_unlock_guard_, s_cv_mutex, this);
+                FASTSCAPELIB_VERIF_SYNC(k_mutex_lock, s_cv_mutex, this, 0);
                 std::lock_guard<std::mutex> lk(m_cv_m);
                 m_pause_requested = true;
             }
@@ -103,6 +105,8 @@ namespace fastscapelib
         if (m_paused)
         {
             {
+                FASTSCAPELIB_VERIF_UNLOCK_GUARD(verif_unlock_guard_, s_cv_mutex, this);
+                FASTSCAPELIB_VERIF_SYNC(k_mutex_lock, s_cv_mutex, this, 0);
                 std::lock_guard<std::mutex> lk(m_cv_m);
                 m_pause_requested = false;
             }
